@@ -261,3 +261,58 @@ def as_bytes_encodes_current(ctx: Ctx, rule: str):
                  "`msg.as_bytes()`", rule=rule,
                  expected="every entry -> return path passes through the encode loop over self.avps",
                  observed="a path around the loop")
+
+
+def no_shared_default_objects(ctx: Ctx, rule: str, funcs, what: str):
+    """A default argument is evaluated once, when the `def` runs.  A default that is an object with
+    state (a list / dict / set display, a Queue, a buffer, an instance of a repository class) and
+    that the function keeps (stores in an attribute, returns) or changes (append / put / update
+    ...) is one object shared by every call that leaves the argument out: every message built
+    without an AVP list gets the same list, every connection created without a queue the same
+    queue."""
+    ctx.rule(rule, f"no function of {what} keeps or changes a default argument that is an object "
+                   f"with state (it would be shared by all calls)", floor=20)
+    MUT = ("append", "extend", "insert", "add", "update", "put", "put_nowait", "setdefault", "pop",
+           "remove", "clear", "appendleft", "write", "discard")
+    n = 0
+    for f in funcs:
+        a = f.node.args
+        pos = a.posonlyargs + a.args
+        pairs = list(zip(pos[len(pos) - len(a.defaults):], a.defaults)) + \
+            [(k, d) for k, d in zip(a.kwonlyargs, a.kw_defaults) if d is not None]
+        n += 1
+        ctx.inst(f"{f.qualname}:defaults", rule=rule, nontrivial=bool(pairs))
+        for arg, d in pairs:
+            why = _stateful_value(d, f.module)
+            if why is None and isinstance(d, ast.Call):
+                nm = A.call_name(d)
+                if nm.split(".")[-1] in ("Queue", "LifoQueue", "PriorityQueue", "SimpleQueue", "Event",
+                                         "Condition", "Semaphore", "BytesIO", "StringIO"):
+                    why = f"{nm}() object"
+            if why is None:
+                continue
+            kept = None
+            for x in A.walk_no_nested(f.node):
+                if isinstance(x, (ast.Assign, ast.AnnAssign)) and getattr(x, "value", None) is not None:
+                    v = x.value
+                    srcs = [v] + ([v.values[-1], v.values[0]] if isinstance(v, ast.BoolOp) else []) + \
+                        ([v.body, v.orelse] if isinstance(v, ast.IfExp) else [])
+                    if any(isinstance(s_, ast.Name) and s_.id == arg.arg for s_ in srcs) and any(
+                            isinstance(t, (ast.Attribute, ast.Subscript)) for t in A.store_targets(x)):
+                        kept = (x, "stored in " + ast.unparse(A.store_targets(x)[0]))
+                elif isinstance(x, ast.Return) and isinstance(x.value, ast.Name) and x.value.id == arg.arg:
+                    kept = (x, "returned")
+                elif isinstance(x, ast.Call) and isinstance(x.func, ast.Attribute) and x.func.attr in MUT \
+                        and isinstance(x.func.value, ast.Name) and x.func.value.id == arg.arg:
+                    kept = (x, f"changed in place (.{x.func.attr})")
+                if kept:
+                    break
+            if kept:
+                ctx.fail(f"{f.qualname}:default({arg.arg})", f.loc(kept[0]),
+                         f"the default of `{arg.arg}` in {f.qualname} is `{ast.unparse(d)}` ({why}), "
+                         f"evaluated once, and the function has it {kept[1]}: every call that leaves "
+                         f"`{arg.arg}` out shares that one object (what one message / connection puts "
+                         f"into it shows up in all the others)", rule=rule,
+                         expected="None as the default and a fresh object per call",
+                         observed=ast.unparse(d))
+    return n
